@@ -1054,4 +1054,139 @@ Section NInv.
       destruct (n_lead s HN T k t Ho HTt) as [Ha|Hb]; [|left; exact Ha|right; apply HB; exact Hb].
       apply (leader_llog_nonempty s Hr t c). apply (leader_recorded inc out); assumption.
   Qed.
+  Lemma Agree_cover lg T k i L : (k <= i)%nat -> (i <= length (lg T))%nat ->
+    (exists suf, L = firstn i (lg T) ++ suf) -> Agree lg T k L.
+  Proof. intros Hki Hi Hsuf. apply Agree_le with (k := i); [exact Hki|]. apply Agree_prefix; assumption. Qed.
+
+  Lemma NInv_step_log s l s' : lreachable s -> NInv s -> lrule l s = Some s' ->
+    (forall l0, l <> LEl l0) -> (forall c x, l <> LPropose c x) -> NInv s'.
+  Proof.
+    intros Hr HN H Hnel Hnp.
+    pose proof (lreachable_LInv inc out inc_nonempty Hmulti s Hr) as HL.
+    pose proof (lreachable_EInv inc out inc_nonempty Hmulti s Hr) as HE.
+    pose proof (reachable_Inv inc out _ (lreachable_el _ _ _ Hr)) as HIe.
+    assert (HB : forall T k, Block s T k -> Block s' T k) by (intros; eapply Block_step; eassumption).
+    destruct l as [l0|c x|n m|q i|q t i|c k0|n k0|n|n]; [exfalso; eapply Hnel; reflexivity|exfalso; eapply Hnp; reflexivity| | | | | | |].
+    - (* adopt *)
+      apply ladopt_inv in H. cbv zeta in H. destruct H as (_ & _ & Hm & Hch & _ & _ & ->).
+      apply (NInv_transfer s _ HN); [reflexivity|exact HB| | | |].
+      + intros T k q c0 t0 Ho Ht HP HV Hc0. left. split; [|split; [exact HV|reflexivity]].
+        destruct HP as [HP|(i & Hi & HP)]; [left; exact HP|right]. exists i. split; [exact Hi|].
+        cbn in HP. destruct (N.eqb_spec q n) as [->|]; exact HP.
+      + intros T k q i Ho Hi Hin. cbn in Hin |- *. destruct (N.eqb_spec q n) as [->|Hne]; [|left; auto].
+        cbn in Hin |- *. right. destruct (n_created s HN T k n i Ho Hi Hin) as [Ha|Hb]; [|right; exact Hb].
+        apply adopt_agree; assumption.
+      + intros T k q Ho Hk. left. split; [exact Hk|]. cbn. destruct (N.eqb_spec q n) as [->|]; reflexivity.
+      + intros T k q Ho. rewrite Seq_set_ln. destruct (N.eqb_spec q n) as [->|Hne]; [|apply (n_seq s HN T k q Ho)].
+        cbn [with_log l_log l_dlog l_imgs]. eapply seq_ok_replace_last; [apply (n_seq s HN T k n Ho)|].
+        intros Ha. apply adopt_agree; assumption.
+    - (* make ack *)
+      apply lmkack_inv in H. cbv zeta in H. destruct H as (_ & _ & Hi & Hcov & ->).
+      apply (NInv_transfer s _ HN); [reflexivity|exact HB| | | |].
+      + intros T k q0 c0 t0 Ho Ht HP HV Hc0. left. split; [|split; [exact HV|reflexivity]].
+        destruct HP as [HP|(i0 & Hi0 & HP)]; [left; exact HP|]. cbn in HP.
+        destruct (N.eqb_spec q0 q) as [->|]; [|right; eauto]. cbn in HP.
+        destruct HP as [HP|HP]; [|right; eauto]. inversion HP; subst. exfalso.
+        pose proof (Vote_term_le inc out _ _ _ _ HIe HV). lia.
+      + intros T k q0 i0 Ho Hi0 Hin. cbn in Hin |- *. destruct (N.eqb_spec q0 q) as [->|Hne]; [|left; auto].
+        cbn in Hin |- *. destruct Hin as [Hin|Hin]; [|left; auto]. inversion Hin; subst. right. left.
+        apply Agree_cover with (i := i0); assumption.
+      + intros T k q0 Ho Hk. left. split; [exact Hk|]. cbn. destruct (N.eqb_spec q0 q) as [->|]; reflexivity.
+      + intros T k q0 Ho. rewrite Seq_set_ln. destruct (N.eqb_spec q0 q) as [->|Hne]; apply (n_seq s HN T k _ Ho).
+    - (* release ack *)
+      apply lrelack_inv in H. destruct H as (Hin & Hcov & Hi & ->).
+      destruct (acked s q t <? i)%nat; [|exact HN].
+      apply (NInv_transfer s _ HN); [reflexivity|exact HB| | | |].
+      + intros T k q0 c0 t0 Ho Ht HP HV Hc0. left. split; [|split; [exact HV|reflexivity]].
+        destruct HP as [HP|HP]; [|right; exact HP]. cbn in HP.
+        destruct ((q0 =? q) && (T =? t)) eqn:E; [|left; exact HP].
+        apply andb_prop in E. destruct E as [E1 E2]. apply N.eqb_eq in E1, E2. subst. right. eauto.
+      + intros; left; split; [assumption|reflexivity].
+      + intros T k q0 Ho Hk. cbn in Hk |- *. destruct ((q0 =? q) && (T =? t)) eqn:E; [|left; auto].
+        apply andb_prop in E. destruct E as [E1 E2]. apply N.eqb_eq in E1, E2. subst. right. left.
+        apply Agree_cover with (i := i); assumption.
+      + intros T k q0 Ho. apply (n_seq s HN T k q0 Ho).
+    - (* leader commit *)
+      apply lcommitl_inv in H. cbv zeta in H. destruct H as (Hl & Hk0 & _ & _ & _ & ->).
+      set (x' := mkLN (l_log (ln s c)) (l_dlog (ln s c)) (l_imgs (ln s c)) k0 (l_acks (ln s c))).
+      assert (Hpr : forall q T k, promised (set_ln s c x') q T k -> promised s q T k).
+      { intros q T k [HP|(i & Hi & HP)]; [left; exact HP|right]. exists i. split; [exact Hi|].
+        cbn in HP. destruct (N.eqb_spec q c) as [->|]; exact HP. }
+      destruct (is_prefix (firstn k0 (l_log (ln s c))) (l_dlog (ln s c)) && (acked s c (p_term (nodes (el s) c)) <? k0)%nat) eqn:Eb.
+      + apply andb_prop in Eb. destruct Eb as [Eb _]. apply is_prefix_spec in Eb.
+        apply (NInv_transfer s _ HN); [reflexivity|exact HB| | | |].
+        * intros T k q0 c0 t0 Ho Ht HP HV Hc0. left. split; [|split; [exact HV|reflexivity]].
+          destruct HP as [HP|HP]; [|apply Hpr; right; exact HP]. cbn in HP.
+          destruct ((q0 =? c) && (T =? p_term (nodes (el s) c))) eqn:E; [|left; exact HP].
+          apply andb_prop in E. destruct E as [E1 E2]. apply N.eqb_eq in E1, E2. subst. exfalso.
+          pose proof (Vote_term_le inc out _ _ _ _ HIe HV). lia.
+        * intros T k q0 i0 Ho Hi0 Hin. left. cbn in Hin |- *. destruct (N.eqb_spec q0 c) as [->|]; auto.
+        * intros T k q0 Ho Hk. cbn in Hk.
+          assert (Ed : l_dlog (ln (add_cpt (set_acked (set_ln s c x') c (p_term (nodes (el s) c)) k0) (p_term (nodes (el s) c)) k0) q0) = l_dlog (ln s q0)).
+          { cbn. destruct (N.eqb_spec q0 c) as [->|]; reflexivity. }
+          rewrite Ed. destruct ((q0 =? c) && (T =? p_term (nodes (el s) c))) eqn:E; [|left; auto].
+          apply andb_prop in E. destruct E as [E1 E2]. apply N.eqb_eq in E1, E2. subst. right. left.
+          apply Agree_cover with (i := k0); [exact Hk| |].
+          -- rewrite <- (li_B s HL c Hl). exact Hk0.
+          -- rewrite <- (li_B s HL c Hl). exact Eb.
+        * intros T k q0 Ho. change (seq_ok (Agree (llog s) T k) (Block s T k) (Seq (set_ln s c x') q0)).
+          rewrite Seq_set_ln. destruct (N.eqb_spec q0 c) as [->|Hne]; apply (n_seq s HN T k _ Ho).
+      + apply (NInv_transfer s _ HN); [reflexivity|exact HB| | | |].
+        * intros T k q0 c0 t0 Ho Ht HP HV Hc0. left. split; [apply Hpr; exact HP|split; [exact HV|reflexivity]].
+        * intros T k q0 i0 Ho Hi0 Hin. left. cbn in Hin |- *. destruct (N.eqb_spec q0 c) as [->|]; auto.
+        * intros T k q0 Ho Hk. left. split; [exact Hk|]. cbn. destruct (N.eqb_spec q0 c) as [->|]; reflexivity.
+        * intros T k q0 Ho. change (seq_ok (Agree (llog s) T k) (Block s T k) (Seq (set_ln s c x') q0)).
+          rewrite Seq_set_ln. destruct (N.eqb_spec q0 c) as [->|Hne]; apply (n_seq s HN T k _ Ho).
+    - (* follower commit *)
+      apply lcommitf_inv in H. destruct H as (_ & _ & _ & _ & ->).
+      apply (NInv_transfer s _ HN); [reflexivity|exact HB| | | |].
+      + intros T k q0 c0 t0 Ho Ht HP HV Hc0. left. split; [|split; [exact HV|reflexivity]].
+        destruct HP as [HP|(i & Hi & HP)]; [left; exact HP|right]. exists i. split; [exact Hi|].
+        cbn in HP. destruct (N.eqb_spec q0 n) as [->|]; exact HP.
+      + intros T k q0 i0 Ho Hi0 Hin. left. cbn in Hin |- *. destruct (N.eqb_spec q0 n) as [->|]; auto.
+      + intros T k q0 Ho Hk. left. split; [exact Hk|]. cbn. destruct (N.eqb_spec q0 n) as [->|]; reflexivity.
+      + intros T k q0 Ho. rewrite Seq_set_ln. destruct (N.eqb_spec q0 n) as [->|Hne]; apply (n_seq s HN T k _ Ho).
+    - (* log image *)
+      apply llogimage_inv in H. destruct H as (_ & ->).
+      apply (NInv_transfer s _ HN); [reflexivity|exact HB| | | |].
+      + intros T k q0 c0 t0 Ho Ht HP HV Hc0. left. split; [|split; [exact HV|reflexivity]].
+        destruct HP as [HP|(i & Hi & HP)]; [left; exact HP|right]. exists i. split; [exact Hi|].
+        cbn in HP. destruct (N.eqb_spec q0 n) as [->|]; exact HP.
+      + intros T k q0 i0 Ho Hi0 Hin. left. cbn in Hin |- *. destruct (N.eqb_spec q0 n) as [->|]; auto.
+      + intros T k q0 Ho Hk. left. split; [exact Hk|]. cbn. destruct (N.eqb_spec q0 n) as [->|]; reflexivity.
+      + intros T k q0 Ho. rewrite Seq_set_ln. destruct (N.eqb_spec q0 n) as [->|Hne]; [|apply (n_seq s HN T k _ Ho)].
+        cbn [l_log l_dlog l_imgs].
+        change (seq_ok (Agree (llog s) T k) (Block s T k)
+                  (((l_dlog (ln s n) :: l_imgs (ln s n)) ++ [l_log (ln s n)]) ++ [l_log (ln s n)])).
+        apply seq_ok_dup_last. apply (n_seq s HN T k n Ho).
+    - (* log fsync *)
+      apply llogfsync_inv in H. destruct H as (img & rest & Ei & _ & _ & ->).
+      assert (Hseq : forall T k, own (llog s) T k ->
+                seq_ok (Agree (llog s) T k) (Block s T k) (l_dlog (ln s n) :: (img :: rest) ++ [l_log (ln s n)])).
+      { intros T k Ho. pose proof (n_seq s HN T k n Ho) as Hs. unfold Seq in Hs. rewrite Ei in Hs. exact Hs. }
+      apply (NInv_transfer s _ HN); [reflexivity|exact HB| | | |].
+      + intros T k q0 c0 t0 Ho Ht HP HV Hc0. left. split; [|split; [exact HV|reflexivity]].
+        destruct HP as [HP|(i & Hi & HP)]; [left; exact HP|right]. exists i. split; [exact Hi|].
+        cbn in HP. destruct (N.eqb_spec q0 n) as [->|]; exact HP.
+      + intros T k q0 i0 Ho Hi0 Hin. left. cbn in Hin |- *. destruct (N.eqb_spec q0 n) as [->|]; auto.
+      + intros T k q0 Ho Hk. cbn. destruct (N.eqb_spec q0 n) as [->|]; [|left; auto]. cbn. right.
+        destruct (n_acked s HN T k n Ho Hk) as [Ha|Hb]; [|right; exact Hb].
+        destruct (Hseq T k Ho) as [Hs _]. apply Hs; [exact Ha|]. left. reflexivity.
+      + intros T k q0 Ho. rewrite Seq_set_ln. destruct (N.eqb_spec q0 n) as [->|Hne]; [|apply (n_seq s HN T k _ Ho)].
+        cbn [l_log l_dlog l_imgs]. destruct (Hseq T k Ho) as [_ Hs]. exact Hs.
+  Qed.
+
+  Theorem NInv_step s l s' : lreachable s -> NInv s -> lrule l s = Some s' -> NInv s'.
+  Proof.
+    intros Hr HN H. destruct l as [l0|c x|n m|q i|q t i|c k0|n k0|n|n];
+      try (eapply NInv_step_log; [exact Hr|exact HN|exact H|discriminate|discriminate]).
+    - destruct l0; try (eapply NInv_step_el; [exact Hr|exact HN|exact H|discriminate]).
+      eapply NInv_step_become; eassumption.
+    - eapply NInv_step_propose; eassumption.
+  Qed.
+
+  Theorem lreachable_NInv s : lreachable s -> NInv s.
+  Proof.
+    induction 1 as [|s l s' Hr IH Hstep]; [apply NInv_init|]. eapply NInv_step; eassumption.
+  Qed.
 End NInv.
